@@ -12,6 +12,42 @@ NOT_DECIDED = 'step-length bound between consecutive nodes; in-limit interpolati
 ASSUMPTIONS = ['kdtree / Vec operations behave as documented']
 
 
+ROLES = {}
+
+
+def tree_roles(ctx, dual):
+    """Private methods of the RRT tree, found by what they do (names are not relied on):
+    insert - pushes a node built from a &[N] argument onto the vertex list and returns its index;
+    grow   - has a predicate parameter (FF) and calls insert;  grow_until - has a predicate parameter and calls grow only;
+    ancestors - (&self, usize) -> Vec<Vec<N>>;  new - the constructor taking the tree's name literal."""
+    prog = ctx.prog
+    mod = dual.path.rsplit('::', 1)[0]
+    tree = [b for p, b in prog.bodies.items() if p.startswith(mod + '::') and b.kind != 'Closure' and 'Tree<' in (b.raw.get('impl_self') or '')]
+    def calls_of(b):
+        return {t['callee'].get('resolved') for _, t in b.calls()}
+    insert = [b for b in tree if b.local_ty(0) == 'usize' and b.arg_count == 2 and b.local_ty(2).startswith('&[') and any(cname(callee_name(t)) == 'Vec::push' for _, t in b.calls())]
+    ctx.require(len(insert) == 1, 'the tree method that inserts a vertex (fn(&mut Tree, &[N]) -> usize pushing onto the vertex list)')
+    has_ff = lambda b: any(b.local_ty(i).replace('&mut ', '').strip() == 'FF' for i in range(1, b.arg_count + 1))
+    grow = [b for b in tree if has_ff(b) and insert[0].path in calls_of(b)]
+    ctx.require(len(grow) == 1, 'the tree method that extends towards a target (predicate parameter, calls the insertion)')
+    grow_until = [b for b in tree if has_ff(b) and grow[0].path in calls_of(b) and insert[0].path not in calls_of(b)]
+    ctx.require(len(grow_until) == 1, 'the tree method that extends repeatedly (predicate parameter, calls the single extension)')
+    anc = [b for b in tree if b.arg_count == 2 and b.local_ty(2) == 'usize' and b.local_ty(0).replace('std::vec::', '').startswith('Vec<Vec<')]
+    ctx.require(len(anc) == 1, 'the tree method returning the ancestors of a vertex (fn(&Tree, usize) -> Vec<Vec<N>>)')
+    new = [b for b in tree if b.arg_count == 2 and 'str' in b.local_ty(1) and 'Tree<' in b.local_ty(0)]
+    ctx.require(len(new) == 1, 'the tree constructor taking the tree name')
+    r = {'insert': insert[0].path, 'grow': grow[0].path, 'grow_until': grow_until[0].path, 'ancestors': anc[0].path, 'new': new[0].path}
+    ROLES.clear()
+    ROLES.update(r)
+    return r
+
+
+def _is(t_or_name, role):
+    """callee (MIR call terminator or term callee path) plays the given tree role"""
+    path = t_or_name['callee'].get('resolved') if isinstance(t_or_name, dict) else t_or_name
+    return path == ROLES.get(role)
+
+
 def run(ctx):
     prog = ctx.prog
     ctx.rule('R13.1', 'add_vertex is called only on the true edge of is_free(&q) for that q, or for the two roots with start and goal')
@@ -24,10 +60,11 @@ def run(ctx):
     ctx.require(len(dual) == 1, 'rrt_to::dual_rrt_connect')
     dual = dual[0]
     ctx.fn(dual)
+    tree_roles(ctx, dual)
     add_vertex_sites = []
     for b in prog.bodies.values():
         for bi, t in b.calls():
-            if cname(callee_name(t)) == 'Tree::add_vertex':
+            if _is(t, 'insert'):
                 add_vertex_sites.append((b, bi, t))
     ctx.floor('R13.1 add_vertex call sites', len(add_vertex_sites), 3)
     roots = {}
@@ -68,7 +105,7 @@ def run(ctx):
     for bi, t in dual.calls():
         if not t['span']['exp']:
             calls.setdefault(cname(callee_name(t)), []).append((bi, t))
-    gur = calls.get('Tree::get_until_root', [])
+    gur = [(bi, t) for bi, t in dual.calls() if _is(t, 'ancestors') and not t['span']['exp']]
     rev = calls.get('slice::reverse', [])
     app = calls.get('Vec::append', [])
     eqs = calls.get('PartialEq::eq', []) + calls.get('str::eq', [])
@@ -123,11 +160,11 @@ def run(ctx):
         is_stop = util.param_index(dual.op_term(lt['args'][0], (lb, None))) == 7
         in_loop = any(strip(g)[0] == 'discr' for g, k, sw in dual.guard_terms(lb))
         # sampling / extension happen only after the load on its false edge
-        work = [(bi, t) for bi, t in dual.calls() if cname(callee_name(t)) in ('Fn::call', 'Tree::extend', 'Tree::connect')]
+        work = [(bi, t) for bi, t in dual.calls() if cname(callee_name(t)) == 'Fn::call' or _is(t, 'grow') or _is(t, 'grow_until')]
         after = all(any(strip(g) == strip(dual.call_term(lt, (lb, None))) and opw.truth(k) is False for g, k, sw in dual.guard_terms(bi)) for bi, t in work)
         # true edge reaches only a return of Err
         true_blocks = dual.edge_dominated(_switch_after(dual, lb), 'otherwise') if _switch_after(dual, lb) is not None else set()
-        bad = [bi for bi in true_blocks if any(cname(callee_name(t)) in ('Fn::call', 'Tree::extend', 'Tree::connect', 'Tree::add_vertex') for b2, t in dual.calls() if b2 == bi)]
+        bad = [bi for bi in true_blocks if any((cname(callee_name(t)) == 'Fn::call' or _is(t, 'grow') or _is(t, 'grow_until') or _is(t, 'insert')) for b2, t in dual.calls() if b2 == bi)]
         err_ret = _all_paths_return_err(dual, true_blocks)
         ok = is_stop and in_loop and after and not bad and err_ret and len(work) >= 3
         msg = 'stop flag: is_param=%s in_loop=%s work-after-check=%s err-only=%s' % (is_stop, in_loop, after, err_ret)
@@ -278,7 +315,7 @@ def _same_vec(a, b):
 
 def _tree_literal_term(t):
     t = strip(t)
-    if isinstance(t, tuple) and t[0] == 'call' and cname(t[1]) == 'Tree::new':
+    if isinstance(t, tuple) and t[0] == 'call' and t[1] == ROLES.get('new'):
         return _lit(t[2])
     return None
 
